@@ -149,3 +149,44 @@ def accumulator_discipline(rep: Report, f: FuncInfo, var: str, clause: str, ret_
                   f'`{norm_stmt(n)}` overwrites or subtracts from the accumulator instead of adding to it: '
                   f'contributions accumulated before it are lost', f.loc(n), clause)
     return good
+
+
+class _Alpha(ast.NodeTransformer):
+    def __init__(self, mapping):
+        self.mapping = mapping
+
+    def visit_Name(self, node):
+        if node.id in self.mapping:
+            return ast.copy_location(ast.Name(id=self.mapping[node.id], ctx=node.ctx), node)
+        return node
+
+    def visit_arg(self, node):
+        if node.arg in self.mapping:
+            node = ast.copy_location(ast.arg(arg=self.mapping[node.arg], annotation=None), node)
+        return node
+
+
+def alpha_body(f: FuncInfo, extra_subst=None) -> List[str]:
+    """statements of the function body with locals renamed by order of first binding (v0, v1, ...), so that
+    renaming a local variable does not change the text; docstring dropped"""
+    import copy as _copy
+    order = []
+    for n in ast.walk(f.node):
+        if isinstance(n, ast.Name) and isinstance(n.ctx, ast.Store) and n.id not in order:
+            order.append((getattr(n, 'lineno', 0), getattr(n, 'col_offset', 0), n.id))
+    names = []
+    for _, _, nm in sorted(order):
+        if nm not in names:
+            names.append(nm)
+    params = [p.name for p in f.params]
+    mapping = {nm: f'v{i}' for i, nm in enumerate(n for n in names if n not in params)}
+    out = []
+    for st in f.node.body:
+        if isinstance(st, ast.Expr) and isinstance(st.value, ast.Constant):
+            continue
+        st2 = _Alpha(mapping).visit(_copy.deepcopy(st))
+        txt = ' '.join(ast.unparse(st2).split())
+        for a, b in (extra_subst or []):
+            txt = txt.replace(a, b)
+        out.append(txt)
+    return out
